@@ -411,7 +411,7 @@ class Translator:
 
     # ------------------------------------------------------------------ helpers
     def T(self, ty):
-        return {'I': 'Int', 'F': self.F, 'B': 'Bool',
+        return {'I': 'Int', 'F': self.F, 'B': 'Bool', 'L': f'List {self.F}', 'C': 'Curve', 'E': 'Env',
                 'S': self.state['struct'] if self.state else '?'}[ty]
 
     def lit(self, v):
@@ -522,6 +522,14 @@ class Translator:
             self.conditional_divs(ctx.assume(c, False), mark, 'if-expression')
             a, b, t = self.unify(ra, rb)
             return (f'(if {c} then {a} else {b})', t)
+        if isinstance(node, ast.List) and getattr(self, 'ctor_mode', False):
+            items = []
+            for el in node.elts:
+                c, t = self.expr(el, ctx)
+                if t not in ('I', 'F'):
+                    raise Unsupported(f'list element `{ast.unparse(el)}` is not a number')
+                items.append(self.toF(c, t))
+            return ('[' + ', '.join(items) + ']', 'L')
         if isinstance(node, ast.Call):
             return self.call(node, ctx)
         if isinstance(node, ast.Attribute):
@@ -618,6 +626,19 @@ class Translator:
                         return (self.toF(c, t), 'F')
                 raise Unsupported(f'`{ast.unparse(node)}`: conversion of {t}')
             raise Unsupported(f'call of local `{f.id}`')
+        if d == 'utl.list_binop' and getattr(self, 'ctor_mode', False):
+            # element-wise list algebra with a scalar: utl.list_binop(operator.add|mul, a, b)
+            if len(args) != 3 or self.dotted(args[0]) not in ('operator.add', 'operator.mul'):
+                raise Unsupported(f'`{ast.unparse(node)}`')
+            sym = '+' if self.dotted(args[0]) == 'operator.add' else '*'
+            a, b = self.expr(args[1], ctx), self.expr(args[2], ctx)
+            if a[1] in ('I', 'F') and b[1] in ('I', 'F'):
+                return (f'({self.toF(*a)} {sym} {self.toF(*b)})', 'F')
+            if a[1] == 'L' and b[1] in ('I', 'F'):
+                return (f'({a[0]}.map (· {sym} {self.toF(*b)}))', 'L')
+            if a[1] in ('I', 'F') and b[1] == 'L':
+                return (f'({b[0]}.map ({self.toF(*a)} {sym} ·))', 'L')
+            raise Unsupported(f'`{ast.unparse(node)}`: operand types {a[1]}, {b[1]}')
         if d == 'type':
             if len(args) != 1:
                 raise Unsupported('type() with several arguments')
@@ -1075,6 +1096,95 @@ class Translator:
         return {'lean': lean, 'ret': ret, 'wrap': wrap, 'implicit': list(fn.implicit),
                 'not_exec': fn.not_exec}
 
+    # ------------------------------------------------------------------ constructors (C19)
+    def constructor(self, mod, cls, name, curve_params=('curve',)):
+        """Translate a `@classmethod` whose body is straight-line assignments followed by
+        `return cls(levels, times[, curves[, release_node[, loop_node[, offset]]]])` into a
+        definition returning the hand-written `Env.new …` (the `__init__` defaults are read from the
+        source).  Parameters named in `curve_params` are opaque curve specifications."""
+        self.ctor_mode = True
+        node = mod.method(cls, name)
+        if [ast.unparse(d) for d in node.decorator_list] != ['classmethod']:
+            raise Unsupported(f'{cls}.{name} is not a classmethod')
+        a = node.args
+        if a.vararg or a.kwarg or a.kwonlyargs or a.posonlyargs:
+            raise Unsupported(f'{cls}.{name}: variadic parameters')
+        params = [p.arg for p in a.args[1:]]
+        init = mod.method(cls, '__init__')
+        iparams = [p.arg for p in init.args.args[1:]]
+        if iparams != ['levels', 'times', 'curves', 'release_node', 'loop_node', 'offset']:
+            raise Unsupported(f'{cls}.__init__ parameters changed: {iparams}')
+        idefaults = dict(zip(iparams[len(iparams) - len(init.args.defaults):], init.args.defaults))
+        fn = FnState(name, None, None, False)
+        env, binders = {}, []
+        for p_ in params:
+            t = 'C' if p_ in curve_params else 'F'
+            env[p_] = (lname(p_), t)
+            binders.append(f'({lname(p_)} : {self.T(t)})')
+        ctx = Ctx(mod, cls, env, fn)
+        lines = []
+        body = [b for b in node.body if not (isinstance(b, ast.Expr) and isinstance(b.value, ast.Constant))]
+        for st in body[:-1]:
+            if not (isinstance(st, ast.Assign) and len(st.targets) == 1 and isinstance(st.targets[0], ast.Name)):
+                raise Unsupported(f'{cls}.{name}: statement `{ast.unparse(st)}`')
+            c, t = self.expr(st.value, ctx)
+            if t not in ('F', 'I', 'L'):
+                raise Unsupported(f'{cls}.{name}: `{ast.unparse(st)}` has type {t}')
+            n = lname(st.targets[0].id)
+            lines.append(f'let {n} : {self.T(t)} := {c}')
+            ctx = ctx.bind(st.targets[0].id, n, t)
+        last = body[-1]
+        if not (isinstance(last, ast.Return) and isinstance(last.value, ast.Call)
+                and isinstance(last.value.func, ast.Name) and last.value.func.id == 'cls'):
+            raise Unsupported(f'{cls}.{name}: does not end with `return cls(…)`')
+        call = last.value
+        if len(call.args) > 6 or any(k.arg not in iparams for k in call.keywords):
+            raise Unsupported(f'{cls}.{name}: `{ast.unparse(call)}`')
+        given = dict(zip(iparams, call.args))
+        given.update({k.arg: k.value for k in call.keywords})
+        for k in iparams:
+            if k not in given:
+                if k not in idefaults:
+                    raise Unsupported(f'{cls}.{name}: `{k}` missing in `{ast.unparse(call)}`')
+                given[k] = idefaults[k]
+
+        def lst(x):
+            c, t = self.expr(x, ctx)
+            if t != 'L':
+                raise Unsupported(f'{cls}.{name}: `{ast.unparse(x)}` is not a list of numbers')
+            return c
+
+        def curves(x):
+            if isinstance(x, ast.Constant) and isinstance(x.value, str):
+                return f'[Curve.name {lean_string(x.value)}]'
+            if isinstance(x, ast.Constant) and isinstance(x.value, (int, float)) and not isinstance(x.value, bool):
+                return f'[Curve.num {self.toF(*self.lit(x.value))}]'
+            if isinstance(x, ast.Name) and x.id in ctx.env and ctx.env[x.id][1] == 'C':
+                return f'[{ctx.env[x.id][0]}]'
+            raise Unsupported(f'{cls}.{name}: curves argument `{ast.unparse(x)}`')
+
+        def node_(x):
+            if isinstance(x, ast.Constant) and x.value is None:
+                return 'none'
+            if isinstance(x, ast.Constant) and isinstance(x.value, int) and not isinstance(x.value, bool):
+                return f'(some ({x.value} : Int))'
+            raise Unsupported(f'{cls}.{name}: node argument `{ast.unparse(x)}`')
+        off = self.expr(given['offset'], ctx)
+        if off[1] not in ('I', 'F'):
+            raise Unsupported(f'{cls}.{name}: offset `{ast.unparse(given["offset"])}`')
+        if fn.pending:
+            for d_, _ in fn.pending:
+                if not ctx.nonzero(d_):
+                    raise Unsupported(f'{cls}.{name}: possibly-zero divisor `{d_}`')
+            fn.pending = []
+        lines.append(f'Env.new {lst(given["levels"])} {lst(given["times"])} {curves(given["curves"])} '
+                     f'{node_(given["release_node"])} {node_(given["loop_node"])} {self.toF(*off)}')
+        text = (f'/-- {mod.path.name}:{node.lineno} {cls}.{name} [classmethod] -/\n'
+                f'def {lname(name)} {" ".join(binders)} : Env :=\n    ' + '\n    '.join(lines) + '\n')
+        self.defs.append((lname(name), text))
+        self.ctor_mode = False
+        return {'lean': lname(name), 'params': params}
+
     # ------------------------------------------------------------------ dispatchers over Num
     def dispatcher(self, name, infos, arity):
         """`def name (a b : Num) : Except String Num` choosing the variant by the dynamic types,
@@ -1448,6 +1558,9 @@ def unit_c12(repo):
     return {'Sc3Verif/C12/GenTempo.lean': text}, index
 
 
+C19_CTORS = ['triangle', 'sine', 'perc', 'linen', 'dadsr', 'adsr', 'asr']
+
+
 def find_env_chain(cmod):
     """Locate, inside Env._env_at, the segment loop, the `if time < end_time:` test, the
     position assignment and the shape chain.  Any other shape of the function is unsupported."""
@@ -1504,7 +1617,16 @@ def unit_c19(repo):
                          'Mathlib.Analysis.SpecialFunctions.Trigonometric.Basic',
                          'Mathlib.Analysis.SpecialFunctions.Sqrt'],
                 extra_top=PRELUDE_REAL)
-    return files, {'shape_names': table}
+    tc = Translator('exec')
+    ctors = {}
+    for name in C19_CTORS:
+        ctors[name] = tc.constructor(emod, 'Env', name)
+    hdr = ('Source: sc3/synth/envelope.py, the constructors of Env whose body is straight-line list\n'
+           'algebra ending in `return cls(…)`; `Env.new` (Base.lean) is the hand model of `Env.__init__`,\n'
+           'its default arguments are read from the source.')
+    files['Sc3Verif/C19/GenCtors.lean'] = tc.render('Sc3Verif.C19.GenC', hdr, imports=['Sc3Verif.C19.Base'],
+                                                    opens=['Sc3Verif.C19'])
+    return files, {'shape_names': table, 'ctors': ctors}
 
 
 PRELUDE_EXEC_MIN = '''
